@@ -826,7 +826,16 @@ func main() {
 					if a == nil || b == nil {
 						continue
 					}
-					same := hx.Canon(a.Validate) == hx.Canon(b.Validate) && hx.Canon(a.Plan) == hx.Canon(b.Plan)
+					// validation legitimately asks for possible-type tables (site 11; compared with the model in one()),
+					// every other validation counter and every planning counter must not depend on the implementers
+					withoutPT := func(v []uint64) []uint64 {
+						out := append([]uint64{}, v...)
+						if len(out) > sitePossibleTypes {
+							out[sitePossibleTypes] = 0
+						}
+						return out
+					}
+					same := hx.Canon(withoutPT(a.Validate)) == hx.Canon(withoutPT(b.Validate)) && hx.Canon(a.Plan) == hx.Canon(b.Plan)
 					if mode.RtShift == 0 {
 						same = same && hx.Canon(a.Exec) == hx.Canon(b.Exec)
 					}
